@@ -23,7 +23,7 @@ import tomllib
 from .. import gen, tlc, treegen
 from ..common import rmtree, scratch, seed
 
-CH = {"DQ": '"', "SQ": "'", "BS": "\\", "NL": "\n", "CR": "\r", "LB": "{", "RB": "}", "N": "n", "X": "x", "HASH": "#"}
+CH = {"DQ": '"', "SQ": "'", "BS": "\\", "NL": "\n", "CR": "\r", "LB": "{", "RB": "}", "N": "n", "X": "x", "HASH": "#", "AST": "\U00020BB7", "LS": "\u2028", "FF": "\x0c"}
 SITES = [("DQ", "rse"), ("DQ", "none"), ("TDQ", "doc"), ("TDQ", "doc_rse"), ("REPR", "repr"), ("REPR", "repr_rse"), ("DQ", "repr"), ("IDENT", "sanitize"),
          ("DQFMT", "none"), ("DQF", "rse"), ("TOMLB", "none"), ("TOMLB", "rse")]
 MARK = "OPCVINJ"
@@ -59,7 +59,7 @@ def escaper_conformance(rep, d) -> tuple[bool, bool]:
     from openapi_python_client import utils
     env = jinja2.Environment(loader=jinja2.PackageLoader("openapi_python_client"), trim_blocks=True, lstrip_blocks=True, keep_trailing_newline=True)
     tpl = env.from_string('{% from "helpers.jinja" import safe_docstring %}{{ safe_docstring(c) }}')
-    classes = ["DQ", "SQ", "BS", "NL", "LB", "N", "X"]
+    classes = ["DQ", "SQ", "BS", "NL", "LB", "N", "X", "AST", "LS", "FF"]
     # which primitive is in the tree? (decides the constants of the model: the model follows the code, the LAWS do not)
     rse_bs = utils.remove_string_escapes("\\") == "\\\\"
     doc_esc = '\\"' in tpl.render(c='a"""b')
@@ -311,6 +311,9 @@ def payloads(cex: dict, quick: bool, rnd) -> list[tuple[str, str]]:
     classes = ["DQ", "SQ", "BS", "NL", "LB", "RB", "HASH", "X"]
     for k in (1, 2):
         words |= set(itertools.product(classes, repeat=k))
+    # characters outside the BMP, U+2028 and form feed: alone and next to the delimiters
+    for sp in ("AST", "LS", "FF"):
+        words |= {(sp,), (sp, "DQ"), ("BS", sp), ("X", sp, "X")}
     for site, laws in cex.items():
         for law, h in laws.items():
             if h:
@@ -412,7 +415,7 @@ def run(rep) -> None:
         rep.extra["lexer_counterexamples"] = {f"{c}/{e}": v for (c, e), v in cex.items()}
         pl = payloads(cex, quick, rnd)
         if quick:
-            must = [p for p in pl if p[0].startswith("composite") or p[0] in ("DQ", "SQ", "BS", "NL", "LB", "BS+DQ", "DQ+DQ+DQ", "BS+DQ+DQ+DQ", "X+BS", "DQ+NL", "BS+NL", "HASH", "SQ+SQ+SQ", "LB+X+RB", "BS+BS+DQ")]
+            must = [p for p in pl if p[0].startswith("composite") or p[0] in ("DQ", "SQ", "BS", "NL", "LB", "BS+DQ", "DQ+DQ+DQ", "BS+DQ+DQ+DQ", "X+BS", "DQ+NL", "BS+NL", "HASH", "SQ+SQ+SQ", "LB+X+RB", "BS+BS+DQ", "AST", "LS", "FF", "AST+DQ", "BS+AST")]
             rest = [p for p in pl if p not in must]
             pl = must + rnd.sample(rest, 14)
         jobs, meta = [], []
